@@ -380,6 +380,12 @@ class Parser:
             self.next()
             self.ident("member")
 
+    def type_args(self, close):
+        """the type arguments after an already consumed `<` / `[`: at least one (no target language has an empty type-argument list)"""
+        if self.at(close):
+            raise Reject("empty type-argument list `%s%s` after a type name" % ({">": "<", "]": "["}[close], close), self.peek())
+        self.comma_list(self.type, close)
+
     def comma_list(self, item, close):
         """item (`,` item)* close — at least one item"""
         item()
@@ -503,7 +509,7 @@ class TS(Parser):
                 self.next()
                 self.ident("member")
             if self.eat("<"):
-                self.comma_list(self.type, ">")
+                self.type_args(">")
         else:
             raise Reject("expected a type", tok)
 
@@ -541,7 +547,7 @@ class Kotlin(Parser):
             self.next()
             self.ident("member")
         if self.eat("<"):
-            self.comma_list(self.type, ">")
+            self.type_args(">")
         while self.eat("?"):
             pass
 
@@ -694,7 +700,7 @@ class Swift(Parser):
                 self.next()
                 self.ident("member")
             if self.eat("<"):
-                self.comma_list(self.type, ">")
+                self.type_args(">")
         while self.eat("?"):
             pass
 
@@ -842,7 +848,7 @@ class Scala(Parser):
             self.next()
             self.ident("member")
         if self.eat("["):
-            self.comma_list(self.type, "]")
+            self.type_args("]")
 
     def alias(self):
         self.word("type")
@@ -1036,6 +1042,9 @@ class Go(Parser):
             if self.at("."):
                 self.next()
                 self.ident("member")
+            if self.t[self.i][1] == "[" and self.t[self.i][0] == "p" and self.peek(1)[1] == "]" and self.peek(1)[0] == "p":
+                # `[]` belongs in front of an element type; behind a type name it can only be an instantiation without arguments
+                raise Reject("empty type-argument list `[]` after a type name", self.peek(1))
             if self.t[self.i][1] == "[" and self.t[self.i][0] == "p" and self.peek(1)[1] != "]" and self.peek(1)[0] != "num":
                 self.next()
                 self.comma_list(self.type, "]")
